@@ -365,7 +365,7 @@ Lemma pq_item : forall t route evt s0, preserves Rq (uts_item t route evt s0).
 Proof. intros; unfold uts_item; walk. Qed.
 Lemma pq_logfail : forall t evt, preserves Rq (uts_logfail t evt).
 Proof. intros; unfold uts_logfail; walk. Qed.
-Lemma pq_completion : forall t route evt ts idx ns, preserves Rq (uts_completion ev t route evt ts idx ns).
+Lemma pq_completion : forall t route evt ts idx ns o0, preserves Rq (uts_completion ev t route evt ts idx ns o0).
 Proof. intros; unfold uts_completion; walk. Qed.
 Lemma pq_queue : forall t route idx ts o n compl, preserves Rq (uts_queue ev t route idx ts o n compl).
 Proof. intros; unfold uts_queue; walk. Qed.
@@ -560,14 +560,14 @@ Proof.
   2: { destruct (Both _ _ E2) as [_ [Mo En]]. split; [exact Mo|]. intros Hok _. split; [apply En; exact Hok|discriminate]. }
   destruct (Both _ _ E2) as [T2 [Mo2 En2]].
   binv H c3 compl E3.
-  2: { pose proof (pq_completion ev _ _ _ _ _ _ _ _ _ E3) as Q. split; [eapply Rmono_trans; [exact Mo2|apply Rq_Rmono; exact Q]|].
+  2: { pose proof (pq_completion ev _ _ _ _ _ _ _ _ _ _ E3) as Q. split; [eapply Rmono_trans; [exact Mo2|apply Rq_Rmono; exact Q]|].
        intros Hok _. split; [eapply Rent_trans; [apply En2; exact Hok|apply Rq_Rent; exact Q]|discriminate]. }
-  pose proof (pq_completion ev _ _ _ _ _ _ _ _ _ E3) as Q.
+  pose proof (pq_completion ev _ _ _ _ _ _ _ _ _ _ E3) as Q.
   inversion H; subst c' res; clear H.
   split; [eapply Rmono_trans; [exact Mo2|apply Rq_Rmono; exact Q]|].
   intros Hok Hp. split; [eapply Rent_trans; [apply En2; exact Hok|apply Rq_Rent; exact Q]|].
   intros p Hpv; inversion Hpv; subst p; clear Hpv. intros ctx Hc; simpl in *.
-  destruct (completion_inv _ _ _ _ _ _ _ _ _ _ E3) as [[_ [Hn0 _]]|[_ [c4 [r4 [ctx4 [b4 [[Ks Kt] [_ [Hr4 [Hc4 [Hb4 _]]]]]]]]]]].
+  destruct (completion_inv _ _ _ _ _ _ _ _ _ _ _ E3) as [[_ [Hn0 _]]|[_ [c4 [r4 [ctx4 [b4 [[Ks Kt] [_ [Hr4 [Hc4 [Hb4 _]]]]]]]]]]].
   - rewrite Hn0 in Hc; discriminate.
   - rewrite Hc4 in Hc; inversion Hc; subst ctx4 b4. destruct (Hb4 eq_refl) as [-> [_ Hal]].
     split; [|exists r4; split; [exact Hr4|exact Hal]].
